@@ -19,6 +19,7 @@ import (
 	"path/filepath"
 	"sort"
 	"strings"
+	"sync"
 
 	"github.com/sassoftware/relic/v8/signers"
 
@@ -140,6 +141,11 @@ func Gen(w *bufio.Writer, seed uint64, tier string, prop string) {
 		}
 		h := "sha256"
 		fmt.Fprintf(w, "E2E sign %s %s %s %s -\n", t, fx, h, strings.Join(ks, ","))
+	}
+	if prop == "C08" {
+		fmt.Fprintf(w, "E2E repeat 200 dmg dummy.dmg sha256 p384,p384 -\n")
+		fmt.Fprintf(w, "E2E repeat 60 pe-coff ClassLibrary1.dll sha256 p256,rsa -\n")
+		fmt.Fprintf(w, "E2E repeat 60 jar hello.jar sha256 p256,rsa -\n")
 	}
 	if prop == "C08" || prop == "C03" {
 		for _, t := range Types { // every type at least twice
@@ -414,6 +420,34 @@ func parseFlags(s string) map[string]string {
 func Handle(f []string) string {
 	if f[0] == "graft" && len(f) == 4 && f[1] == "jar" {
 		return graftJar(f[2], f[3])
+	}
+	if f[0] == "repeat" && len(f) == 7 {
+		// repeat <n> <type> <fixture> <hash> <keys> <flags>: the same history n times, 8 at a time; schedule-dependent
+		// failures (e.g. the transform goroutine racing with Apply, F28) need many runs to show
+		n := int(hx.Atoi(f[1]))
+		sub := append([]string{"sign"}, f[2:]...)
+		res := make([]string, n)
+		sem := make(chan struct{}, 8)
+		var wg sync.WaitGroup
+		for i := 0; i < n; i++ {
+			wg.Add(1)
+			sem <- struct{}{}
+			go func(i int) {
+				defer wg.Done()
+				defer func() { <-sem }()
+				res[i] = Handle(sub)
+			}(i)
+		}
+		wg.Wait()
+		for i, r := range res {
+			if r != res[0] || !strings.HasPrefix(r, "ok") {
+				if !strings.HasPrefix(r, "ok") {
+					return fmt.Sprintf("FAIL run=%d/%d %s", i+1, n, r)
+				}
+				return fmt.Sprintf("FAIL run=%d/%d differs: %s", i+1, n, r)
+			}
+		}
+		return res[0]
 	}
 	if f[0] != "sign" {
 		return "bad-op"
